@@ -138,3 +138,12 @@ Proof.
   split; [|split; vm_compute; reflexivity].
   constructor; [split; [apply perm_swap|reflexivity]|]. constructor; [split; [apply Permutation_refl|reflexivity]|constructor].
 Qed.
+
+(** 8. States without an equation.  x, y initialised, t;  d x/d t + d y/d t = 1001.  Two states are left without
+    index, the equation never gets a type and is discarded without any issue: a valid ODE model with two states
+    and no equation at all. *)
+Definition two_states_sys : system :=
+  [mkComp [mkVar 0 0 INone; mkVar 1 1 IConst; mkVar 2 2 IConst] [mkEqn 1001 (EOp (EDiff 0 1) (EDiff 0 2)) ECn]].
+Lemma two_states_witness :
+  exists r, analyse two_states_sys = Done r /\ r_type r = MOde /\ length (r_states r) = 2 /\ r_eqs r = [] /\ wf_definers r = false.
+Proof. eexists. split; [vm_compute; reflexivity|]. repeat split; vm_compute; reflexivity. Qed.
